@@ -410,13 +410,45 @@ pub fn test_dict_pair(c: &DictPair, ctx: &mut CaseCtx) -> Result<(), String> {
     } else {
         ctx.class("differ_in_words");
     }
+    let source: Vec<char> = c.text.chars().collect();
+    // whatever this thread parsed and linted before (the first dictionary), the result with the
+    // second dictionary equals the result a thread that never did anything else gets
+    {
+        let lint_b = |d: Arc<harper_core::MergedDictionary>, src: Vec<char>| {
+            let doc = Document::new_from_vec(Lrc::new(src), &harper_core::parsers::PlainEnglish, &d);
+            LintGroup::new_curated(d.clone(), DIALECTS[0]).lint(&doc)
+        };
+        let doc_a = Document::new_from_vec(Lrc::new(source.clone()), &harper_core::parsers::PlainEnglish, &a);
+        std::hint::black_box(&doc_a);
+        let here = {
+            let doc = Document::new_from_vec(Lrc::new(source.clone()), &harper_core::parsers::PlainEnglish, &b);
+            // (no curated group is built in between: building one parses with another dictionary)
+            let mut spell = harper_core::linting::SpellCheck::new(b.clone(), DIALECTS[0]);
+            spell.lint(&doc)
+        };
+        let (b2, src2) = (b.clone(), source.clone());
+        let elsewhere = std::thread::spawn(move || {
+            let doc = Document::new_from_vec(Lrc::new(src2), &harper_core::parsers::PlainEnglish, &b2);
+            let mut spell = harper_core::linting::SpellCheck::new(b2.clone(), DIALECTS[0]);
+            spell.lint(&doc)
+        })
+        .join()
+        .map_err(|_| "panic in a fresh thread".to_string())?;
+        let _ = lint_b;
+        ctx.class("second_dictionary_after_first_on_one_thread");
+        if here != elsewhere {
+            return Err(format!(
+                "a thread that first parsed {:?} with dictionary {:?} and then with {:?} reports {} for the second; a fresh thread reports {}",
+                c.text, c.before, c.after, render(&here), render(&elsewhere)
+            ));
+        }
+    }
     if *a != *b {
         ctx.class("compared_unequal_linter_rebuilt");
         return Ok(());
     }
     ctx.class("compared_equal_linter_kept");
     ctx.nontrivial(c);
-    let source: Vec<char> = c.text.chars().collect();
     let lint_with = |d: Arc<harper_core::MergedDictionary>| {
         let doc = Document::new_from_vec(Lrc::new(source.clone()), &harper_core::parsers::PlainEnglish, &d);
         LintGroup::new_curated(d.clone(), DIALECTS[0]).lint(&doc)
